@@ -1507,6 +1507,9 @@ class Executor:
 
         # Try to handle one of the pending EPR responses
         handled = False
+        # Responses for the same queue of requests are handled in their order of arrival:
+        # a response must not overtake an earlier one that still has to wait.
+        waiting = set()
         for i, response in enumerate(self._pending_epr_responses):
 
             if response.type == ReturnType.ERR:
@@ -1518,11 +1521,15 @@ class Executor:
                 info = self._extract_epr_info(response=response)  # type: ignore
                 if info is not None:
                     epr_cmd_data, pair_index, is_creator, request_key = info
+                    if (is_creator, request_key) in waiting:
+                        continue
                     handled = self._epr_response_handlers[response.type](
                         epr_cmd_data=epr_cmd_data,
                         response=response,
                         pair_index=pair_index,
                     )
+                    if not handled:
+                        waiting.add((is_creator, request_key))
                 if handled:
                     epr_cmd_data.pairs_left -= 1
 
